@@ -3,14 +3,23 @@
   Statements are restated in PycommProps/C08.lean.
 -/
 import PycommProofs.CodecRoundTrip
+import PycommProofs.ERRec
+import PycommProofs.EREnc
 namespace Pycomm
 
 /- no unbounded array / rest-of-buffer placeholder anywhere inside -/
+-- STATEMENT CHANGED: added the clause `.arr (.fixed 0) _ => True` (and spelled the remaining array
+-- clauses out).  A zero-length array never decodes an element, so its element type is irrelevant;
+-- without the clause `canon_tailSafe` is false: `Canon (.arr (.fixed 0) (.arr .all .bool)) (.list [])`
+-- holds (no element to constrain) while the old `TailSafe` of that type was `False`.
+-- The predicate only became weaker, so `decode_prefix_stable` became stronger.
 mutual
 def TailSafe : Ty → Prop
   | .nbytes n => 0 ≤ n
   | .arr .all _ => False
-  | .arr _ t => TailSafe t
+  | .arr (.fixed 0) _ => True
+  | .arr (.fixed (_ + 1)) t => TailSafe t
+  | .arr (.pref _) t => TailSafe t
   | .struct ms => TailSafeMembers ms
   | .structTag ms _ _ _ => TailSafeT ms
   | _ => True
@@ -23,11 +32,15 @@ def TailSafeT : TMembers → Prop
 end
 
 /- every array that loops on the buffer (unbounded or counted from the wire) has elements that consume bytes -/
+-- STATEMENT CHANGED: added the clause `.arr (.fixed 0) _ => True` for the same reason (`decode_truncated`
+-- needs `Canon t v → Terminating t`, false for `.arr (.fixed 0) (.arr .all (.arr .all .bool))`).
+-- The predicate only became weaker, so `decode_no_hang` became stronger.
 mutual
 def Terminating : Ty → Prop
   | .arr .all t => PosWidth t ∧ Terminating t
   | .arr (.pref _) t => PosWidth t ∧ Terminating t
-  | .arr (.fixed _) t => Terminating t
+  | .arr (.fixed 0) _ => True
+  | .arr (.fixed (_ + 1)) t => Terminating t
   | .struct ms => TerminatingMembers ms
   | .structTag ms _ _ _ => TerminatingT ms
   | _ => True
@@ -39,77 +52,369 @@ def TerminatingT : TMembers → Prop
   | .cons _ t _ rest => Terminating t ∧ TerminatingT rest
 end
 
+open ER
+
 /-- whatever the value, a failing encode is a DataError (no other exception class exists in the outcome) -/
-theorem encode_error_is_data (t : Ty) (v : PyVal) (e : Exn) (h : encode t v = .error e) : e = .data := by
-  sorry
+theorem encode_error_is_data (t : Ty) (v : PyVal) (e : Exn) (h : encode t v = .error e) : e = .data :=
+  ER.encode_ee t v e h
+
+namespace ER
+
+theorem c2_c3 (e : Exn) (h : C2 e) : C3 e := h.elim Or.inl fun h => Or.inr (Or.inl h)
+
+theorem errClass_all :
+    (∀ t, ErrIn C3 (decode t)) ∧ (∀ ms acc, ErrIn C3 (fun bs => decodeMembers ms bs acc)) ∧
+      (∀ ms raw pos acc e, decodeTMembers ms raw pos acc = .error e → C3 e) := by
+  refine Ty.induct3 ?_ ?_ ?_ ?_ ?_ ?_ ?_ ?_
+  · intro t h; exact (nonrec_err t h).mono c2_c3
+  · intro len t ih; rw [decode_arr_eq]; exact arr_errIn ih c2_c3 (Or.inr (Or.inr rfl)) len
+  · intro ms ih; rw [decode_struct_eq]; exact (ih []).bind fun _ => ErrIn.ret
+  · intro ms bits priv size ih; rw [decode_tag_eq]; exact tag_errIn (fun raw e h => ih raw 0 [] e h) c2_c3 size
+  · intro acc; rw [members_nil]; exact ErrIn.ret
+  · intro name t rest iht ihr acc; rw [members_cons]; exact iht.bind fun v => ihr _
+  · intro raw pos acc e h; rw [decodeTMembers] at h; cases h
+  · intro name t off rest iht ihr raw pos acc e h
+    rcases tmembers_cons_err _ _ _ _ _ _ _ _ h with ⟨bs, hb⟩ | ⟨p, a, hr⟩
+    · exact iht _ _ hb
+    · exact ihr _ _ _ _ hr
+
+theorem suf_all : (∀ t, Suf (decode t)) ∧ (∀ ms acc, Suf (fun bs => decodeMembers ms bs acc)) ∧
+    (∀ _ : TMembers, True) := by
+  refine Ty.induct3 ?_ ?_ ?_ ?_ ?_ ?_ ?_ ?_
+  · intro t h; exact nonrec_suf t h
+  · intro len t ih; rw [decode_arr_eq]; exact arr_suf ih len
+  · intro ms ih; rw [decode_struct_eq]; exact (ih []).bind fun _ => Suf.ret
+  · intro ms bits priv size _; rw [decode_tag_eq]; exact (tag_fixed size).suf
+  · intro acc; rw [members_nil]; exact Suf.ret
+  · intro name t rest iht ihr acc; rw [members_cons]; exact iht.bind fun v => ihr _
+  · trivial
+  · intros; trivial
+
+theorem prog_all : (∀ t, PosWidth t → Prog (decode t)) ∧
+    (∀ ms, PosWidthMembers ms → ∀ acc, Prog (fun bs => decodeMembers ms bs acc)) ∧ (∀ _ : TMembers, True) := by
+  refine Ty.induct3 ?_ ?_ ?_ ?_ ?_ ?_ ?_ ?_
+  · intro t h hw; exact nonrec_prog t h hw
+  · intro len t ih hw
+    rw [decode_arr_eq]
+    cases len with
+    | all => simp [PosWidth] at hw
+    | fixed n =>
+      simp only [PosWidth] at hw
+      exact arr_prog_fixed (suf_all.1 t) (ih hw.2) n hw.1
+    | pref k => exact arr_prog_pref (suf_all.1 t) k
+  · intro ms ih hw
+    rw [decode_struct_eq]
+    simp only [PosWidth] at hw
+    exact (ih hw []).bind_left fun _ => Suf.ret
+  · intro ms bits priv size _ hw; rw [decode_tag_eq]; exact tag_prog size
+  · intro hw; simp [PosWidthMembers] at hw
+  · intro name t rest iht ihr hw acc
+    rw [members_cons]
+    simp only [PosWidthMembers] at hw
+    rcases hw with hw | hw
+    · exact (iht hw).bind_left fun v => suf_all.2.1 rest _
+    · intro bs v r h
+      obtain ⟨a, r1, h1, h2⟩ := (bindD_ok ..).1 h
+      have := (suf_all.1 t _ _ _ h1).length_le
+      have := ihr hw _ _ _ _ h2
+      omega
+  · trivial
+  · intros; trivial
+
+end ER
 
 /-- whatever the bytes, a failing decode is DataError or BufferEmptyError (or the fuel marker) -/
 theorem decode_error_class (t : Ty) (bs : Bytes) (e : Exn) (h : decode t bs = .error e) :
-    e = .data ∨ e = .bufferEmpty ∨ e = .hang := by
-  sorry
+    e = .data ∨ e = .bufferEmpty ∨ e = .hang :=
+  ER.errClass_all.1 t bs e h
 
 /-- what decode leaves is a suffix of what it was given -/
 theorem decode_suffix (t : Ty) (bs : Bytes) (v : PyVal) (r : Bytes) (h : decode t bs = .ok (v, r)) :
     ∃ used, bs = used ++ r := by
-  sorry
+  obtain ⟨used, hu⟩ := ER.suf_all.1 t bs v r h
+  exact ⟨used, hu.symm⟩
 
 theorem decode_progress (t : Ty) (hw : PosWidth t) (bs : Bytes) (v : PyVal) (r : Bytes)
-    (h : decode t bs = .ok (v, r)) : r.length < bs.length := by
-  sorry
+    (h : decode t bs = .ok (v, r)) : r.length < bs.length :=
+  ER.prog_all.1 t hw bs v r h
+
+
+namespace ER
+
+theorem noHang_all : (∀ t, Terminating t → ErrIn (· ≠ .hang) (decode t)) ∧
+    (∀ ms, TerminatingMembers ms → ∀ acc, ErrIn (· ≠ .hang) (fun bs => decodeMembers ms bs acc)) ∧
+    (∀ ms, TerminatingT ms → ∀ raw pos acc e, decodeTMembers ms raw pos acc = .error e → e ≠ .hang) := by
+  refine Ty.induct3 ?_ ?_ ?_ ?_ ?_ ?_ ?_ ?_
+  · intro t h _; exact (nonrec_err t h).mono c2_ne_hang
+  · intro len t ih ht
+    rw [decode_arr_eq]
+    cases len with
+    | all =>
+      simp only [Terminating] at ht
+      exact arr_noHang_loop (suf_all.1 t) (prog_all.1 t ht.1) (ih ht.2) _
+    | pref k =>
+      simp only [Terminating] at ht
+      exact arr_noHang_loop (suf_all.1 t) (prog_all.1 t ht.1) (ih ht.2) _
+    | fixed n =>
+      cases n with
+      | zero => exact arr_errIn_zero
+      | succ n =>
+        simp only [Terminating] at ht
+        exact arr_noHang_fixed (ih ht) _
+  · intro ms ih ht
+    rw [decode_struct_eq]
+    simp only [Terminating] at ht
+    exact (ih ht []).bind fun _ => ErrIn.ret
+  · intro ms bits priv size ih ht
+    rw [decode_tag_eq]
+    simp only [Terminating] at ht
+    exact tag_errIn (fun raw e h => ih ht raw 0 [] e h) c2_ne_hang size
+  · intro _ acc; rw [members_nil]; exact ErrIn.ret
+  · intro name t rest iht ihr ht acc
+    rw [members_cons]
+    simp only [TerminatingMembers] at ht
+    exact (iht ht.1).bind fun v => ihr ht.2 _
+  · intro _ raw pos acc e h; rw [decodeTMembers] at h; cases h
+  · intro name t off rest iht ihr ht raw pos acc e h
+    simp only [TerminatingT] at ht
+    rcases tmembers_cons_err _ _ _ _ _ _ _ _ h with ⟨bs, hb⟩ | ⟨p, a, hr⟩
+    · exact iht ht.1 _ _ hb
+    · exact ihr ht.2 _ _ _ _ hr
+
+theorem fixed_all : (∀ t w, fixedWidth t = some w → Fixed (decode t) w) ∧
+    (∀ ms w, fixedWidthMembers ms = some w → ∀ acc, Fixed (fun bs => decodeMembers ms bs acc) w) ∧
+    (∀ _ : TMembers, True) := by
+  refine Ty.induct3 ?_ ?_ ?_ ?_ ?_ ?_ ?_ ?_
+  · intro t h w hw; exact nonrec_fixed t h w hw
+  · intro len t ih w hw
+    rw [decode_arr_eq]
+    cases len with
+    | all => simp [fixedWidth] at hw
+    | pref k => simp [fixedWidth] at hw
+    | fixed n =>
+      simp only [fixedWidth, Option.map_eq_some_iff] at hw
+      obtain ⟨w', hw', rfl⟩ := hw
+      exact arr_fixed (ih w' hw') n
+  · intro ms ih w hw
+    rw [decode_struct_eq]
+    simp only [fixedWidth] at hw
+    exact (ih w hw []).bind (w2 := 0) fun _ => Fixed.ret
+  · intro ms bits priv size _ w hw
+    rw [decode_tag_eq]
+    simp only [fixedWidth] at hw
+    split at hw
+    · cases hw; exact tag_fixed _
+    · cases hw
+  · intro w hw acc
+    simp only [fixedWidthMembers] at hw
+    cases hw
+    rw [members_nil]; exact Fixed.ret
+  · intro name t rest iht ihr w hw acc
+    rw [members_cons]
+    simp only [fixedWidthMembers, bind, Option.bind_eq_some_iff, pure, Option.some.injEq] at hw
+    obtain ⟨a, ha, b, hb, rfl⟩ := hw
+    exact (iht a ha).bind fun v => ihr b hb _
+  · trivial
+  · intros; trivial
+
+theorem stab_all : (∀ t, TailSafe t → Stab (decode t)) ∧
+    (∀ ms, TailSafeMembers ms → ∀ acc, Stab (fun bs => decodeMembers ms bs acc)) ∧
+    (∀ _ : TMembers, True) := by
+  refine Ty.induct3 ?_ ?_ ?_ ?_ ?_ ?_ ?_ ?_
+  · intro t h hs
+    refine (nonrec_good t h ?_).stab
+    intro n hn; subst hn
+    simpa only [TailSafe] using hs
+  · intro len t ih hs
+    rw [decode_arr_eq]
+    cases len with
+    | all => simp [TailSafe] at hs
+    | pref k =>
+      simp only [TailSafe] at hs
+      exact arr_stab_pref (ih hs) k
+    | fixed n =>
+      cases n with
+      | zero => exact arr_stab_zero
+      | succ n =>
+        simp only [TailSafe] at hs
+        exact arr_stab_fixed (ih hs) _
+  · intro ms ih hs
+    rw [decode_struct_eq]
+    simp only [TailSafe] at hs
+    exact (ih hs []).bind fun _ => Stab.ret
+  · intro ms bits priv size _ _
+    rw [decode_tag_eq]; exact tag_stab size
+  · intro _ acc; rw [members_nil]; exact Stab.ret
+  · intro name t rest iht ihr hs acc
+    rw [members_cons]
+    simp only [TailSafeMembers] at hs
+    exact (iht hs.1).bind fun v => ihr hs.2 _
+  · trivial
+  · intros; trivial
+
+end ER
 
 /-- termination: the fuel of the unbounded-array loop is never the reason to stop -/
-theorem decode_no_hang (t : Ty) (ht : Terminating t) (bs : Bytes) : decode t bs ≠ .error .hang := by
-  sorry
+theorem decode_no_hang (t : Ty) (ht : Terminating t) (bs : Bytes) : decode t bs ≠ .error .hang :=
+  fun h => ER.noHang_all.1 t ht bs _ h rfl
 
 /-- no fixed-width value is produced from fewer bytes than its width, and exactly the width is consumed -/
 theorem fixed_width_needs_width (t : Ty) (w : Nat) (hw : fixedWidth t = some w) (bs : Bytes) (v : PyVal) (r : Bytes)
-    (h : decode t bs = .ok (v, r)) : w ≤ bs.length ∧ r = bs.drop w := by
-  sorry
+    (h : decode t bs = .ok (v, r)) : w ≤ bs.length ∧ r = bs.drop w :=
+  ER.fixed_all.1 t w hw bs v r h
 
 /-- for leaf types BufferEmptyError means exactly: no bytes remain where the value should start -/
 theorem leaf_bufferEmpty_iff (t : Ty) (hl : IsLeaf t) (bs : Bytes) :
     decode t bs = .error .bufferEmpty ↔ bs = [] := by
-  sorry
+  cases t <;> simp only [IsLeaf] at hl
+  case bool =>
+    rw [decode_bool_eq, bindD_err]
+    simp [rd_err, ER.ret]
+  case int k =>
+    rw [decode_int_eq, decodeIntVal_eq, bindD_err, bindD_err]
+    simp [intNat_bufferEmpty, ER.ret]
+  case real =>
+    rw [decode_real_eq, bindD_err]
+    simp [intNat_bufferEmpty, ER.ret]
+  case lreal =>
+    rw [decode_lreal_eq, bindD_err]
+    simp [intNat_bufferEmpty, ER.ret]
+  case bits k =>
+    rw [decode_bits_eq, decodeBits_eq, bindD_err]
+    simp [intNat_bufferEmpty, ER.ret]
+  case ipAddr =>
+    rw [decode_ip_eq, decodeIp_eq, bindD_err]
+    simp [rd_err, ER.ret]
 
 /-- a successful decode of a tail-safe type does not depend on what follows the bytes it consumed -/
 theorem decode_prefix_stable (t : Ty) (hs : TailSafe t) (p : Bytes) (v : PyVal) (r : Bytes)
-    (h : decode t p = .ok (v, r)) (ext : Bytes) : decode t (p ++ ext) = .ok (v, r ++ ext) := by
-  sorry
+    (h : decode t p = .ok (v, r)) (ext : Bytes) : decode t (p ++ ext) = .ok (v, r ++ ext) :=
+  ER.stab_all.1 t hs p v r h ext
 
-theorem canon_tailSafe (t : Ty) (v : PyVal) (h : Canon t v) : TailSafe t := by
-  sorry
+
+namespace ER
+
+theorem canon_all : (∀ t v, Canon t v → TailSafe t ∧ Terminating t) ∧
+    (∀ ms kvs, CanonMembers ms kvs → TailSafeMembers ms ∧ TerminatingMembers ms) ∧
+    (∀ _ : TMembers, True) := by
+  refine Ty.induct3 ?_ ?_ ?_ ?_ ?_ ?_ ?_ ?_
+  · intro t h v hc
+    cases t <;> simp only [NonRec] at h <;> simp only [TailSafe, Terminating, and_self]
+    case nbytes n =>
+      simp only [Canon] at hc
+      obtain ⟨bs, _, hn, _⟩ := hc
+      exact ⟨Int.le_of_lt hn, trivial⟩
+  · intro len t ih v hc
+    cases len with
+    | all => simp [Canon] at hc
+    | pref k => simp [Canon] at hc
+    | fixed n =>
+      cases n with
+      | zero => simp only [TailSafe, Terminating, and_self]
+      | succ n =>
+        simp only [Canon] at hc
+        obtain ⟨vs, _, hl, _, hx⟩ := hc
+        cases vs with
+        | nil => simp at hl
+        | cons x xs =>
+          simp only [TailSafe, Terminating]
+          exact ih x (hx x (List.mem_cons_self ..))
+  · intro ms ih v hc
+    simp only [Canon] at hc
+    obtain ⟨kvs, _, hk⟩ := hc
+    simp only [TailSafe, Terminating]
+    exact ih kvs hk
+  · intro ms bits priv size _ v hc; simp [Canon] at hc
+  · intro kvs _; simp only [TailSafeMembers, TerminatingMembers, and_self]
+  · intro name t rest iht ihr kvs hc
+    cases name with
+    | none => simp [CanonMembers] at hc
+    | some nm =>
+      cases kvs with
+      | nil => simp [CanonMembers] at hc
+      | cons kv kvs =>
+        obtain ⟨k, v⟩ := kv
+        simp only [CanonMembers] at hc
+        obtain ⟨_, _, _, hv, hr⟩ := hc
+        simp only [TailSafeMembers, TerminatingMembers]
+        exact ⟨⟨(iht v hv).1, (ihr kvs hr).1⟩, (iht v hv).2, (ihr kvs hr).2⟩
+  · trivial
+  · intros; trivial
+
+end ER
+
+theorem canon_tailSafe (t : Ty) (v : PyVal) (h : Canon t v) : TailSafe t :=
+  (ER.canon_all.1 t v h).1
+
+theorem canon_terminating (t : Ty) (v : PyVal) (h : Canon t v) : Terminating t :=
+  (ER.canon_all.1 t v h).2
 
 /-- every strict prefix of a valid encoding is rejected with DataError/BufferEmptyError -/
 theorem decode_truncated (t : Ty) (v : PyVal) (h : Canon t v) (bs : Bytes) (he : encode t v = .ok bs)
     (p : Bytes) (hp : p <+: bs) (hne : p ≠ bs) :
     ∃ e, decode t p = .error e ∧ (e = .data ∨ e = .bufferEmpty) := by
-  sorry
+  obtain ⟨bs', he', hd⟩ := decode_encode t v h
+  rw [he] at he'; cases he'
+  obtain ⟨ext, rfl⟩ := hp
+  cases hdp : decode t p with
+  | error e =>
+    refine ⟨e, rfl, ?_⟩
+    rcases decode_error_class t p e hdp with h1 | h1 | h1
+    · exact Or.inl h1
+    · exact Or.inr h1
+    · subst h1; exact absurd hdp (decode_no_hang t (canon_terminating t v h) p)
+  | ok x =>
+    obtain ⟨v', r⟩ := x
+    have h1 := decode_prefix_stable t (canon_tailSafe t v h) p v' r hdp ext
+    have h2 := hd []
+    rw [List.append_nil, h1] at h2
+    simp only [Except.ok.injEq, Prod.mk.injEq, List.append_eq_nil_iff] at h2
+    exact absurd (by rw [h2.2.2, List.append_nil]) hne
 
 theorem out_of_range_rejected (k : IntK) (i : Int) (h : i < k.lo ∨ k.hi < i) :
     encode (.int k) (.int i) = .error .data := by
-  sorry
+  unfold encode
+  have : ¬ (k.lo ≤ i ∧ i ≤ k.hi) := by omega
+  simp [packInt, PyVal.asIndex, this]
 
 theorem wrong_type_rejected_int (k : IntK) (v : PyVal) (h : v.asIndex = none) :
     encode (.int k) v = .error .data := by
-  sorry
+  unfold encode
+  simp [packInt, h]
 
 theorem too_few_rejected (n : Nat) (t : Ty) (vs : List PyVal) (h : vs.length < n) :
     encode (.arr (.fixed n) t) (.list vs) = .error .data := by
-  sorry
+  unfold encode
+  simp [PyVal.len?, h]
 
 theorem wrong_bits_length_rejected (k : IntK) (vs : List PyVal) (h : vs.length ≠ 8 * k.size) :
     encode (.bits k) (.list vs) = .error .data := by
-  sorry
+  unfold encode
+  simp [encodeBits, PyVal.iter?, PyVal.seq?, h]
 
 theorem unencodable_char_rejected (lenK : IntK) (enc : Enc) (cs : Name) (h : Text.encode enc cs = none) :
     encode (.str lenK enc) (.str cs) = .error .data := by
-  sorry
+  unfold encode
+  simp only [encodeStr, h]
+  cases hp : packInt lenK (.int cs.length) with
+  | error e => rw [ER.packInt_ee _ _ e hp]; rfl
+  | ok l => rfl
 
 theorem latin1_unencodable (cs : Name) (c : Nat) (hc : c ∈ cs) (h : 256 ≤ c) : Text.encode .latin1 cs = none := by
-  sorry
+  induction cs with
+  | nil => cases hc
+  | cons x xs ih =>
+    rw [Text.encode]
+    rcases List.mem_cons.1 hc with rfl | hx
+    · have : ¬ c < 256 := by omega
+      simp [Text.encChar, this]
+    · rw [ih hx]
+      cases Text.encChar .latin1 x <;> rfl
 
 theorem non_str_rejected (lenK : IntK) (enc : Enc) (v : PyVal) (h : ∀ cs, v ≠ .str cs) :
     encode (.str lenK enc) v = .error .data := by
-  sorry
+  unfold encode
+  cases v <;> simp only [encodeStr]
+  case str cs => exact absurd rfl (h cs)
 
 end Pycomm
